@@ -132,7 +132,7 @@ def definition_line(rng):
         # new quotes, and redefinitions of the default ones (tags, and the spans flag: '|' on, '||' off)
         return "%s = '%s'" % (rng.choice(['=', '#', '%%', '^', '~', '$$', '!', '_', '*', '`', '**', '``', '__']),
                               rng.choice(['<u>|</u>', '<q>||</q>', '<i>|', 'x', '<span class="a">|</span>', '<tt>|</tt>', '<i>||</i>',
-                                          '{m1}|</u>', '<u class="{m2}">||</u>']))
+                                          '{m1}|</u>', '<u class="{m2}">||</u>', '<u>|{m1}', '<b>||</{m2|b|c}>']))
     if k == 2:
         return "/%s/%s = '%s'" % (rng.choice(['\\bfoo\\b', 'x+', '(a)|(b)', '(', 'a*', '(.+)', '[a-z]{2}', '\\\\?\\.{3}', 'A', '(?i)q']),
                                   rng.choice(['', 'i', 'g', 'm', 'ig']),
@@ -220,7 +220,8 @@ def block(rng, depth=2):
     if k < 0.96:
         return definition_line(rng)
     return rng.choice(['<image:%s|%s>' % (rng.choice(URLS), words(rng)), '<image:%s>' % rng.choice(URLS), '<<#anchor>>',
-                       '{m|%s}' % words(rng), '{undef}'])
+                       '{m|%s}' % words(rng), '{undef}', '<<#{m1}>>', '<image:{m1}|{m2|a|b}>', '<image:i.png|>', '<image:|alt>', '//',
+                       '//' + words(rng), '>', '>\n>' + words(rng)])
 
 
 def document(rng, depth=2, nblocks=None):
